@@ -82,18 +82,21 @@ Definition swar (word : N) : N * N :=
   (N.land value 4294967295, shift / 8).                                                (* as u32 *)
 
 Definition ascii_digits_multi (fuel : nat) (t : ity) (offset : N) : prog (option Z * N) :=
-  BufLenGe (offset + 8) (fun enough =>
-    if negb enough then ascii_digits fuel t offset else
-    Load8 offset (fun word =>
+  TryLoad8 offset (fun ow =>
+    match ow with
+    | None => ascii_digits fuel t offset        (* fewer than offset + 8 bytes buffered: cold path *)
+    | Some word =>
       let '(value, md) := swar word in
       let value := from_prim t (Z.of_N value) in
       if md =? 8 then ascii_digits_cont fuel t false (offset + 8) value
-      else Ret (value, offset + md))).
+      else Ret (value, offset + md)
+    end).
 
 Definition signed_ascii_digits_multi (fuel : nat) (t : ity) (offset : N) : prog (option Z * N) :=
-  BufLenGe (offset + 8) (fun enough =>
-    if negb enough then signed_ascii_digits fuel t offset else
-    Load8 offset (fun word =>
+  TryLoad8 offset (fun ow =>
+    match ow with
+    | None => signed_ascii_digits fuel t offset
+    | Some word =>
       if N.land word 255 =? 45 then
         let '(value, md) := swar (N.shiftr word 8) in
         let value := from_prim t (- Z.of_N value)%Z in
@@ -103,7 +106,8 @@ Definition signed_ascii_digits_multi (fuel : nat) (t : ity) (offset : N) : prog 
         let '(value, md) := swar word in
         let value := from_prim t (Z.of_N value) in
         if md =? 8 then ascii_digits_cont fuel t false (offset + 8) value
-        else Ret (value, offset + md))).
+        else Ret (value, offset + md)
+    end).
 
 (* ---------- whitespace / newline / fixed ---------- *)
 Definition is_blank (b : byte) : bool := (b =? 32) || (b =? 9).
